@@ -820,22 +820,37 @@ class TrigTime:
                     next_time_adj = now + delta
 
             elif len(match1) == 3:
-                this_t, _ = await cls.parse_date_time(match1[1].strip(), 0, now, startup_time)
-                day_offset = (now - this_t).days + 1
-                if day_offset != 0 and this_t != startup_time:
-                    #
-                    # Try a day offset (won't make a difference if spec has full date)
-                    #
-                    this_t, _ = await cls.parse_date_time(match1[1].strip(), day_offset, now, startup_time)
-                if this_t <= now and not (now == this_t == startup_time) and re.match(r"0*\d+[-/]0*\d+(?![-/\d])", match1[1].strip()):
-                    #
-                    # a date without a year is once per year: it has passed this year, so use next year
-                    #
-                    try:
-                        next_year = dt.datetime(now.year + 1, 1, 1)
-                        this_t, _ = await cls.parse_date_time(match1[1].strip(), 0, next_year, startup_time)
-                    except ValueError:
-                        pass
+                #
+                # a date without a year is once per year; the date might not exist in
+                # every year (2/29), so look for the next year that has it
+                #
+                yearless = re.match(r"0*\d+[-/]0*\d+(?![-/\d])", match1[1].strip())
+                this_t = None
+                try:
+                    this_t, _ = await cls.parse_date_time(match1[1].strip(), 0, now, startup_time)
+                    day_offset = (now - this_t).days + 1
+                    if day_offset != 0 and this_t != startup_time:
+                        #
+                        # Try a day offset (won't make a difference if spec has full date)
+                        #
+                        this_t, _ = await cls.parse_date_time(
+                            match1[1].strip(), day_offset, now, startup_time
+                        )
+                except ValueError:
+                    if not yearless:
+                        raise
+                if yearless and (this_t is None or (this_t <= now and not now == this_t == startup_time)):
+                    this_t = None
+                    for year in range(now.year + 1, now.year + 9):
+                        try:
+                            this_t, _ = await cls.parse_date_time(
+                                match1[1].strip(), 0, dt.datetime(year, 1, 1), startup_time
+                            )
+                            break
+                        except ValueError:
+                            continue
+                if this_t is None:
+                    continue
                 startup = now == this_t and now == startup_time
                 if (now < this_t or startup) and (next_time is None or this_t < next_time):
                     next_time_adj = next_time = this_t
